@@ -6,17 +6,16 @@ use crate::exec::run;
 use crate::hc::{CacheCfg, CallResult};
 use crate::ops::Env;
 use async_trait::async_trait;
-use hypercore::{CacheOptionsBuilder, Hypercore, HypercoreBuilder, PartialKeypair, Storage, StorageTraits, Store};
+use hypercore::{Hypercore, HypercoreBuilder, PartialKeypair, Storage, StorageTraits, Store};
 use random_access_memory::RandomAccessMemory;
 use random_access_storage::{RandomAccess, RandomAccessError};
 use std::path::PathBuf;
 use std::sync::{Arc, Mutex};
 
 fn with_cache(b: HypercoreBuilder, cache: CacheCfg) -> HypercoreBuilder {
-    match cache {
-        CacheCfg::Off => b,
-        CacheCfg::Default => b.node_cache_options(CacheOptionsBuilder::new()),
-        CacheCfg::Tiny => b.node_cache_options(CacheOptionsBuilder::new().max_capacity(3 * 92)),
+    match crate::hc::cache_builder(cache) {
+        None => b,
+        Some(o) => b.node_cache_options(o),
     }
 }
 
